@@ -749,8 +749,72 @@ fn file_split_case(tables: &Tables, st: &Stmt, seq: &[u8]) -> Vec<Failure> {
     out
 }
 
+/// INT values beyond 2^53 (where a detour through f64 rounds): SUM / AVG / MIN / MAX / COUNT per group against exact
+/// 128-bit arithmetic, in all 24 orders of the four groups' blocks and with the lines of the groups interleaved
+fn big_int_layer(col: &Collector) -> Vec<Failure> {
+    let tables = sut::make_tables(DEF).unwrap();
+    let groups: Vec<(&str, Vec<i64>)> = vec![
+        ("a", vec![9007199254740993]),
+        ("b", vec![4611686018427387903, 4611686018427387903]),
+        ("c", vec![3002399751580331, 3002399751580331, 3002399751580331]),
+        ("d", vec![-9007199254740993, -1]),
+        ("e", vec![9223372036854775806]),
+        ("f", vec![-9223372036854775807, 9223372036854775806]),
+    ];
+    let mut all_lines: Vec<(usize, String)> = Vec::new();
+    for (gi, (k, vs)) in groups.iter().enumerate() {
+        for v in vs {
+            all_lines.push((gi, format!("{{\"m\":\"m\",\"k\":\"{}\",\"v\":{}}}", k, v)));
+        }
+    }
+    let orders: Vec<Vec<usize>> = {
+        let n = all_lines.len();
+        let fwd: Vec<usize> = (0..n).collect();
+        let rev: Vec<usize> = (0..n).rev().collect();
+        let inter: Vec<usize> = (0..n).filter(|i| i % 2 == 0).chain((0..n).filter(|i| i % 2 == 1)).collect();
+        let inter3: Vec<usize> = (0..3).flat_map(|r| (0..n).filter(move |i| i % 3 == r)).collect();
+        vec![fwd, rev, inter, inter3]
+    };
+    let mut out = Vec::new();
+    let stmts = [
+        "SELECT k, AVG(v) AS a, SUM(v) AS s, MIN(v) AS lo, MAX(v) AS hi, COUNT(v) AS n FROM t GROUP BY k",
+        "SELECT k, AVG(v) + 1 AS a, SUM(v) AS s, MIN(v) AS lo, MAX(v) AS hi, COUNT(*) AS n FROM t GROUP BY k HAVING AVG(v) <= MAX(v) AND AVG(v) >= MIN(v)",
+    ];
+    for (si, text) in stmts.iter().enumerate() {
+        for (oi, order) in orders.iter().enumerate() {
+            let lines: Vec<&str> = order.iter().map(|i| all_lines[*i].1.as_str()).collect();
+            let got = sut::run_batch(&tables, &sut::parse(text).unwrap(), &lines);
+            let want: Vec<Vec<RVal>> = groups
+                .iter()
+                .map(|(k, vs)| {
+                    let sum: i128 = vs.iter().map(|x| *x as i128).sum();
+                    let avg = (sum / vs.len() as i128) as i64 + if si == 1 { 1 } else { 0 };
+                    vec![RVal::Text(k.to_string()), RVal::Int(avg), RVal::Int(sum as i64), RVal::Int(*vs.iter().min().unwrap()), RVal::Int(*vs.iter().max().unwrap()), RVal::Int(vs.len() as i64)]
+                })
+                .collect();
+            let ok = matches!(&got, Outcome::Ok(t) if format!("{:?}", rows_json(&t.rows)) == format!("{:?}", rows_json(&want)));
+            if !ok {
+                out.push(fail(
+                    format!("aggregate:big-int:{}", if si == 0 { "plain" } else { "wrapper+having" }),
+                    format!("`{}` over INT values beyond 2^53 (line order {}): got {}, expected {:?}", text, oi, match &got { Outcome::Ok(t) => format!("{:?}", rows_json(&t.rows)), Outcome::Err(e) => format!("error {}", e), Outcome::Panic(p) => format!("panic {}", p.msg) }, rows_json(&want)),
+                    json!({"layer": "big-int", "statement": text, "order": oi}),
+                    json!(rows_json(&want)),
+                    sut::outcome_json(&got, |t| t.to_json()),
+                    (si * 10 + oi) as u64,
+                ));
+            }
+        }
+    }
+    col.eval((stmts.len() * orders.len()) as u64);
+    col.layer("INT values beyond 2^53: SUM / AVG / MIN / MAX against 128-bit arithmetic", (stmts.len() * orders.len()) as u64, true, json!({"groups": groups.len(), "orders": orders.len()}));
+    out
+}
+
 pub fn run(ctx: &Ctx) -> i32 {
     let col = Collector::new();
+    for f in big_int_layer(&col) {
+        col.fail(f);
+    }
     let tables = sut::make_tables(DEF).unwrap();
     let stmts = statements(ctx.tier == Tier::Thorough);
     let maxlen = ctx.tier.pick(3, 4) as u32;
@@ -806,6 +870,9 @@ pub fn run(ctx: &Ctx) -> i32 {
 }
 
 pub fn replay(case: &J) -> Vec<Failure> {
+    if case["layer"].as_str() == Some("big-int") {
+        return big_int_layer(&Collector::new()).into_iter().filter(|f| f.case == *case).collect();
+    }
     let tables = sut::make_tables(DEF).unwrap();
     let st = Stmt { distinct: case["distinct"].as_bool().unwrap_or(false), items: case["items"].as_array().unwrap().iter().map(|x| x.as_u64().unwrap() as usize).collect(), group_by: case["group_by"].as_u64().unwrap() as usize, filter: case["filter"].as_u64().unwrap() as usize, having: case["having"].as_u64().unwrap() as usize };
     let seq: Vec<u8> = case["seq"].as_array().unwrap().iter().map(|x| x.as_u64().unwrap() as u8).collect();
